@@ -78,3 +78,69 @@ Example C01_nonvacuous :
              table_of ex_g 1 st = [(2, 2); (3, 2); (4, 2)] /\
              route_check ex_g 1 (r_cost st) (table_of ex_g 1 st) = true.
 Proof. exact ex_route. Qed.
+
+(* ================= Part B: the known graph converges to the real topology ================= *)
+From Receptor Require Import Model.Flood Model.FloodWorld Model.RouteWorld Proofs.RouteWorld Proofs.RouteCompose.
+
+(* B1. CLEAN-ROUND CONVERGENCE.  In a clean world (frozen symmetric topology, every routing update
+       in flight tells the truth about its origin), for EVERY interleaving of ticks (a node floods
+       its true adjacency with a fresh ID and a newer (epoch, sequence)) and deliveries in ANY
+       order: once node o has ticked and nothing is in flight any more, every node connected to
+       o holds exactly o's true adjacency.  (Nodes run Model/Flood.v's handle_update, the model
+       that `./check C06` ties step-exactly to handleRoutingUpdate.) *)
+Theorem C01_known_graph_converges : forall tp ls w w' o v,
+  CI tp w -> rrun tp w ls w' -> ticked o ls -> w_flight w' = [] ->
+  treach tp o v -> v <> o ->
+  exists st, rnode_at w' v = Some st /\ aget o (ns_known st) = Some (tp o).
+Proof. exact known_graph_converges. Qed.
+Print Assumptions C01_known_graph_converges.
+
+(* the clean-world invariant is preserved by every step (so a clean world stays clean) *)
+Theorem C01_clean_preserved : forall tp ls w w', rrun tp w ls w' -> CI tp w -> CI tp w'.
+Proof. intros tp ls w w' Hr C. exact (proj1 (rrun_preserves tp ls w w' Hr C)). Qed.
+Print Assumptions C01_clean_preserved.
+
+(* B2. COMPOSITION.  If every node's known graph tells the truth about everything it can reach
+       (B1; stale entries about unreachable nodes are harmless) and every node's table passes the
+       certificate check for its own known graph (A1/A2), then IN THE REAL TOPOLOGY G: each table
+       has an entry exactly for the reachable nodes, reports their least cost, routes via a direct
+       neighbour strictly closer to the destination, and following next hops never loops. *)
+Theorem C01_converged_next_hop : forall tp G kg_of cs_of t_of,
+  (forall a, is_key G a = true -> agrees tp a G) ->
+  (forall u, is_key G u = true ->
+     agrees tp u (kg_of u) /\ graph_wf (kg_of u) = true /\ all_pos (kg_of u) = true /\
+     route_check (kg_of u) u (cs_of u) (t_of u) = true) ->
+  forall u d c, is_key G u = true -> u <> d -> is_dist G u d c ->
+  exists h w c2, aget d (t_of u) = Some h /\ edge G u h = Some w /\ 0 < w /\
+                 is_dist G h d c2 /\ c = w + c2 /\ is_key G h = true.
+Proof. exact real_next_hop_closer. Qed.
+Print Assumptions C01_converged_next_hop.
+
+Theorem C01_converged_table_exact : forall tp G kg_of cs_of t_of,
+  (forall a, is_key G a = true -> agrees tp a G) ->
+  (forall u, is_key G u = true ->
+     agrees tp u (kg_of u) /\ graph_wf (kg_of u) = true /\ all_pos (kg_of u) = true /\
+     route_check (kg_of u) u (cs_of u) (t_of u) = true) ->
+  forall u d, is_key G u = true -> is_key G d = true -> d <> u ->
+  (aget d (t_of u) <> None <-> exists c, is_dist G u d c) /\
+  (forall c, is_dist G u d c -> cost_of (cs_of u) d = Some c).
+Proof. exact real_table_exact. Qed.
+Print Assumptions C01_converged_table_exact.
+
+Theorem C01_converged_loop_free : forall tp G kg_of cs_of t_of,
+  (forall a, is_key G a = true -> agrees tp a G) ->
+  (forall u, is_key G u = true ->
+     agrees tp u (kg_of u) /\ graph_wf (kg_of u) = true /\ all_pos (kg_of u) = true /\
+     route_check (kg_of u) u (cs_of u) (t_of u) = true) ->
+  forall c u d, is_key G u = true -> is_dist G u d c ->
+  exists l, follows t_of d u l /\ NoDup (u :: l) /\
+            forall x, In x l -> exists cx, is_dist G x d cx /\ cx < c.
+Proof. exact real_next_hops_loop_free. Qed.
+Print Assumptions C01_converged_loop_free.
+
+(* non-vacuity of B1: a concrete clean world 1 - 2 - 3, node 1 ticks, two deliveries, quiet, and
+   node 3 holds node 1's true adjacency *)
+Example C01_clean_nonvacuous :
+  exists ls w', rrun ex_tp ex_w0 ls w' /\ ticked 1 ls /\ w_flight w' = [] /\
+  exists st, rnode_at w' 3 = Some st /\ aget 1 (ns_known st) = Some (ex_tp 1).
+Proof. exact ex_route_converged. Qed.
